@@ -14,10 +14,14 @@
      m_trigger/t_trigger = None   the history meets none of the known findings' triggers:
                       0 truncate below the file size while a dirty list reaches beyond the new size
                       1 a Read served from a stale visible-interval cache
+     xop / m_xrun / m_xtrigger   extended histories: WriteRead off data roff rlen = a Write followed by a Read that
+                      arrives while the chunk uploads started by that Write are still in flight (FileHandle.Read
+                      does not wait for the writers); FlushClose = the real FileHandle.Flush (compaction + CreateEntry)
+                      2 (extended histories only) a WriteRead whose Write started a save
                     (File.Setattr dropping the chunks that lie wholly inside the new size has been
                      repaired in weed/filesys/file.go; the model follows the repaired code) *)
 From Coq Require Import List ZArith NArith Bool.
-From SW Require Import proof.DirtyPagesProofs.
+From SW Require Import proof.DirtyPagesProofs proof.DirtyPagesInflight.
 Import ListNotations.
 Local Open Scope Z_scope.
 
@@ -138,6 +142,7 @@ Print Assumptions c30_handle_read_partial_temp.
 Example c30_example_trigger_free :
   m_trigger 4 ex_ops = None /\ t_trigger 4 ex_ops = None /\ Forall op_ok ex_ops.
 Proof. exact ex_trigger_free. Qed.
+Print Assumptions c30_example_trigger_free.
 
 (* the former witness of the repaired Setattr defect (a truncate that leaves a whole chunk inside the
    new size) is now trigger-free and resolves to the POSIX file *)
@@ -147,6 +152,7 @@ Example c30_example_truncate_keeps_chunks :
   content_of (t_meta (exec tstate (t_step 16) tstate0 (w_kept ++ [Flush]))) = [1;2;3;4;5;6]%N /\
   pfile (w_kept ++ [Flush]) = [1;2;3;4;5;6]%N.
 Proof. exact w_kept_values. Qed.
+Print Assumptions c30_example_truncate_keeps_chunks.
 
 Example c30_example_content :
   content_of (m_meta (exec mstate (m_step 4) mstate0 ex_ops)) = [1;2;3;0;0;9;0;0;0;0]%N /\
@@ -154,3 +160,70 @@ Example c30_example_content :
   pfile ex_ops = [1;2;3;0;0;9;0;0;0;0]%N /\
   length (f_chunks (m_meta (exec mstate (m_step 4) mstate0 ex_ops))) = 3%nat.
 Proof. exact ex_content. Qed.
+Print Assumptions c30_example_content.
+
+(* ---------- reads while a save is in flight (extended histories) ----------
+   FULL statement "every read returns the POSIX bytes" REFUTED for the in-memory buffer: AddPage hands a list
+   to an upload goroutine and removes it from the intervals; until the upload completes the bytes are neither
+   in the dirty pages nor in entry.Chunks, and FileHandle.Read does not wait (finding 2). *)
+Theorem c30_inflight_read_refuted : exists limit xs, 0 < limit /\ Forall op_ok (xflat xs) /\
+  m_xtrigger limit xs = Some 2%N /\
+  xread_data (last (m_xrun limit xs) (XObs (OTrunc [] 0) 0)) <> pread (pfile (xflat xs)) 0 4.
+Proof. exact inflight_read_refuted. Qed.
+Print Assumptions c30_inflight_read_refuted.
+
+(* PARTIAL (refinement): an extended history meeting no trigger - every WriteRead's Write starts no save - is
+   observation by observation the plain history Write; Read, which meets no trigger either: all the
+   theorems above apply to it *)
+Theorem c30_inflight_refines_mem : forall limit xs, m_xtrigger limit xs = None ->
+  m_trigger limit (xflat xs) = None /\ xobs_flat (m_xrun limit xs) = m_run limit (xflat xs).
+Proof. exact m_x_refines. Qed.
+Print Assumptions c30_inflight_refines_mem.
+
+Theorem c30_inflight_refines_temp : forall limit xs, t_xtrigger limit xs = None ->
+  t_trigger limit (xflat xs) = None /\ xobs_flat (t_xrun limit xs) = t_run limit (xflat xs).
+Proof. exact t_x_refines. Qed.
+Print Assumptions c30_inflight_refines_temp.
+
+Theorem c30_inflight_read_partial_mem : forall limit xpre off data roff rlen xpost,
+  Forall op_ok (xflat (xpre ++ WriteRead off data roff rlen :: xpost)) -> 0 <= roff -> 0 < rlen ->
+  m_xtrigger limit (xpre ++ WriteRead off data roff rlen :: xpost) = None ->
+  exists ow d ms a,
+    snd (m_xstep limit (exec_x mstate (m_xstep limit) mstate0 xpre) (WriteRead off data roff rlen)) =
+    XWriteRead ow (ORead d ms (pread (pfile (xflat xpre ++ [Write off data])) roff rlen)) a.
+Proof. exact m_inflight_read_posix. Qed.
+Print Assumptions c30_inflight_read_partial_mem.
+
+Theorem c30_inflight_read_partial_temp : forall limit xpre off data roff rlen xpost, 0 < limit ->
+  Forall op_ok (xflat (xpre ++ WriteRead off data roff rlen :: xpost)) -> 0 <= roff -> 0 < rlen ->
+  t_xtrigger limit (xpre ++ WriteRead off data roff rlen :: xpost) = None ->
+  exists ow d ms a,
+    snd (t_xstep limit (exec_x tstate (t_xstep limit) tstate0 xpre) (WriteRead off data roff rlen)) =
+    XWriteRead ow (ORead d ms (pread (pfile (xflat xpre ++ [Write off data])) roff rlen)) a.
+Proof. exact t_inflight_read_posix. Qed.
+Print Assumptions c30_inflight_read_partial_temp.
+
+(* FULL for the temp-file buffer: its Write never starts a save (uploads happen inside FlushData, which
+   waits for them), so trigger 2 never fires there *)
+Theorem c30_temp_never_inflight : forall limit xs, t_xtrigger limit xs <> Some 2%N.
+Proof. exact t_never_inflight. Qed.
+Print Assumptions c30_temp_never_inflight.
+
+(* what the witness of finding 2 returns: zeros from the in-memory buffer, the written bytes from the temp file *)
+Example c30_example_inflight_values :
+  xread_data (last (m_xrun 4 w3) (XObs (OTrunc [] 0) 0)) = [0;0;0;0]%N /\ pread (pfile (xflat w3)) 0 4 = [1;2;3;4]%N /\
+  xread_data (last (t_xrun 4 w3) (XObs (OTrunc [] 0) 0)) = [1;2;3;4]%N.
+Proof. exact w3_values. Qed.
+Print Assumptions c30_example_inflight_values.
+
+(* the closing FileHandle.Flush on a trigger-free history with a completely overwritten chunk:
+   CompactFileChunks drops it (3 chunks -> 2) and the entry the filer receives resolves to the POSIX file *)
+Example c30_example_closing_flush :
+  xcreated (last (m_xrun 16 w_close) (XObs (OTrunc [] 0) 0)) = pfile (xflat w_close) /\
+  xcreated (last (t_xrun 16 w_close) (XObs (OTrunc [] 0) 0)) = pfile (xflat w_close) /\
+  pfile (xflat w_close) = [5;6;7;7;9;9;9;9]%N /\
+  length (compact_chunks (f_chunks (m_meta (exec_x mstate (m_xstep 16) mstate0 w_close)))) = 2%nat /\
+  length (f_chunks (m_meta (exec_x mstate (m_xstep 16) mstate0 w_close))) = 3%nat /\
+  m_xtrigger 16 w_close = None /\ t_xtrigger 16 w_close = None.
+Proof. exact w_close_values. Qed.
+Print Assumptions c30_example_closing_flush.
